@@ -135,7 +135,6 @@ package hook
 //@ ghost lastHookResult *Result
 //@ ghost lastHookErr error
 //@ ghost fsExists map[string]bool
-//@ ghost ctxFileContent bctx.BindingContextList
 //@ ghost nProcess int
 //@ ghost lastExitErr error
 //@ ghost nOutputsRead int
@@ -146,18 +145,17 @@ package hook
 // an error has created nothing and returns no name; a successful step has written exactly one file
 // that did not exist before - the file whose name it returns - and the binding-context file is
 // written from the JSON rendering of exactly the list handed in. Assumed below them: os.WriteFile
-// (an error leaves no file; success creates the named file and no other), the JSON renderer (ghost
-// log of what was rendered) and, per call site, that a name carrying a fresh uuid is non-empty and
+// (an error leaves no file; success creates the named file and no other), json.MarshalIndent below
+// the renderer (BindingContextList.Json is verified: ghost log of what was rendered, own storage) and, per call site, that a name carrying a fresh uuid is non-empty and
 // does not exist yet.
-//@ ghost lastJsonOut []byte
 //@ ghost lastWritten []byte
 //@ func (*Hook).prepareBindingContextJsonFile
 //@   prop C12
 //@   requires h != nil
-//@   modifies fsExists, ctxFileContent, lastJsonOut, lastWritten
+//@   modifies fsExists, bctx.lastJsonIn, bctx.lastJsonOut, lastWritten
 //@   ensures [error-leaves-nothing] result1 != nil ==> result0 == "" && forall(p, string, fsExists[p] == old(fsExists[p]))
 //@   ensures [one-new-file] result1 == nil ==> result0 != "" && !old(fsExists[result0]) && fsExists[result0] && forall(p, string, p != result0 ==> fsExists[p] == old(fsExists[p]))
-//@   ensures [content-is-the-list-handed-in] result1 == nil ==> ctxFileContent == context && lastWritten == lastJsonOut
+//@   ensures [content-is-the-list-handed-in] result1 == nil ==> bctx.lastJsonIn == context && lastWritten == bctx.lastJsonOut
 //@   callsite path/filepath.Join
 //@     ensures result != "" && !fsExists[result]
 //@ func (*Hook).prepareMetricsFile
@@ -197,11 +195,6 @@ package hook
 //@   callsite path/filepath.Join
 //@     ensures result != "" && !fsExists[result]
 
-//@ package github.com/flant/shell-operator/pkg/hook/binding_context
-//@ trusted func (BindingContextList).Json
-//@   modifies hook.ctxFileContent, hook.lastJsonOut
-//@   ghostset hook.ctxFileContent := b
-//@   ghostset hook.lastJsonOut := result0
 //@ package os
 //@ trusted func WriteFile
 //@   modifies hook.fsExists, hook.lastWritten
@@ -268,7 +261,7 @@ package hook
 //@   requires [rate-limit-token] lastWaitHook == h && lastWaitErr == nil && h != nil
 //@   requires h.HookController != nil && h.Config != nil && (h.Config.Version == "v0" || h.Config.Version == "v1") && nProcess >= 0 && !fsExists[""]
 //@   modifies bctx.lastConvIn, bctx.lastConvVersion, bctx.lastConvOut, controller.lastRefreshIn, controller.lastRefreshOut, controller.snapCount, controller.snapOf
-//@   modifies nRun, lastRunHook, ranContexts, lastWaitHook, lastHookResult, lastHookErr, fsExists, ctxFileContent, lastJsonOut, lastWritten, nProcess, lastExitErr, nOutputsRead, lastEnviron
+//@   modifies nRun, lastRunHook, ranContexts, lastWaitHook, lastHookResult, lastHookErr, fsExists, bctx.lastJsonIn, bctx.lastJsonOut, lastWritten, nProcess, lastExitErr, nOutputsRead, lastEnviron
 //@   ghostset nRun := nRun + 1
 //@   ghostset lastRunHook := h
 //@   ghostset ranContexts := context
@@ -280,7 +273,7 @@ package hook
 //@   ensures [non-zero-exit-fails] nProcess == old(nProcess) + 1 && lastExitErr != nil ==> result1 != nil && nOutputsRead == old(nOutputsRead)
 //@   ensures [no-process-fails]  nProcess == old(nProcess) ==> result1 != nil && nOutputsRead == old(nOutputsRead)
 //@   ensures [outputs-all-read]  result1 == nil ==> nProcess == old(nProcess) + 1 && lastExitErr == nil && nOutputsRead == old(nOutputsRead) + 4
-//@   ensures [context-file]      nProcess == old(nProcess) + 1 ==> ctxFileContent == bctx.lastConvOut && bctx.lastConvIn == controller.lastRefreshOut && bctx.lastConvVersion == h.Config.Version && controller.lastRefreshIn == context
+//@   ensures [context-file]      nProcess == old(nProcess) + 1 ==> bctx.lastJsonIn == bctx.lastConvOut && bctx.lastConvIn == controller.lastRefreshOut && bctx.lastConvVersion == h.Config.Version && controller.lastRefreshIn == context
 //@   ensures [temp-files-gone]   app.DebugKeepTmpFilesVar != "yes" ==> forall(p, string, fsExists[p] == old(fsExists[p]))
 
 // ---- C14: an admission event is handed only to hooks whose controller accepts it ---------------
